@@ -352,9 +352,21 @@ func toSMTPErr(err error) *smtp.SMTPError {
 	if ok {
 		res.Code = ctxCode
 	}
-	ctxEnchCode, ok := ctxInfo["smtp_enchcode"].(smtp.EnhancedCode)
-	if ok {
+	// exterrors.SMTPError.Fields stores the exterrors.EnhancedCode type.
+	var ctxEnchCode smtp.EnhancedCode
+	switch v := ctxInfo["smtp_enchcode"].(type) {
+	case exterrors.EnhancedCode:
+		ctxEnchCode = smtp.EnhancedCode(v)
+	case smtp.EnhancedCode:
+		ctxEnchCode = v
+	}
+	if ctxEnchCode != smtp.EnhancedCodeNotSet {
 		res.EnhancedCode = ctxEnchCode
+	} else if class := res.Code / 100; class == 4 || class == 5 {
+		// No enhanced code provided (e.g. the remote server does not use
+		// them): use the generic one of the basic code's class, the DSN
+		// cannot be generated without a status.
+		res.EnhancedCode = smtp.EnhancedCode{class, 0, 0}
 	}
 	ctxMsg, ok := ctxInfo["smtp_msg"].(string)
 	if ok {
